@@ -70,6 +70,7 @@ structure Side where
   syncPath   : Option String := none
   ex         : Ex := .unknown             -- `exists`
   lastGotten : Rat := 0                   -- `_last_gotten`
+  dir        : Bool := false              -- `otype == DIRECTORY`
   deriving Repr, DecidableEq
 
 structure Entry where
@@ -331,6 +332,101 @@ def opAttach (st : St) (s : Bool) (id : Nat) (oid path : String) (prio : Rat) : 
   let st0 := if clash then { st with unmodelled := true } else st
   st0.withE id (fun e => seqA (setOidA e s oid) (fun e => setPathA st.punt e s path prio))
 
+/-! ## folders: a path change carries the descendants along (`_update_kids`), each re-prioritised from its NEW path -/
+
+/-- the application's `prioritize(side, path)` -/
+abbrev Cls := Bool → String → Rat
+
+/-- `provider.is_subpath(parent, p, strict=True)` for a case-sensitive provider with separator '/': the rest of `p`
+    (with its leading separator) when `p` lies strictly beneath `parent` (provider.py:549-581) -/
+def relUnder (parent p : String) : Option String :=
+  let a := parent.toList
+  let b := p.toList
+  if a.isEmpty then none
+  else if a.isPrefixOf b && (b.drop a.length).head? == some '/' then some (String.ofList (b.drop a.length))
+  else none
+
+/-- `provider.join(path, relative)` for such a relative part -/
+def joinRel (path rel : String) : String := path ++ rel
+
+/-- `get_all()`: entries indexed by an id on either side -/
+def inGetAll (e : Entry) : Bool := e.l.oid.isSome || e.r.oid.isSome
+
+/-- one iteration of the loop of `_update_kids_of` (state.py 869-900) over the snapshot `sub0` of `get_all()`; `recur` is the
+    recursive `sub[s].path = new_path` -/
+def kidStep (recur : St → Nat → String → St) (oipS : Bool) (skip : List Nat) (s : Bool) (pp path : String)
+    (acc : St) (sub0 : Entry) : St :=
+  if skip.contains sub0.id then acc                          -- `any(sub is moving for moving in self._kids_moving)`
+  else
+    match acc.get? sub0.id with
+    | none => acc
+    | some sub =>
+      match (sub.side s).path.bind (relUnder pp) with       -- `get_kids`: path strictly beneath the previous path
+      | none => acc
+      | some rel =>
+        let np := joinRel path rel
+        -- path-id provider: `new_info = provider.info_path(new_path); if new_info: sub[side].oid = new_info.oid`
+        let acc1 := if oipS then acc.withE sub.id (fun e => setOidA e s np) else acc
+        let acc2 := recur acc1 sub.id np
+        -- the synced path follows
+        match (sub.side s).syncPath.bind (relUnder pp) with
+        | some srel =>
+          acc2.withE sub.id (fun e => (e.setSide s { e.side s with syncPath := some (joinRel path srel) }, []))
+        | none => acc2
+
+/-- `ent[s].path = path` on the state (state.py `_change_path` 819-856, `_update_kids` / `_update_kids_of` 858-900):
+    nothing when unchanged; the path is written; for a DIRECTORY whose previous path was known every entry of `get_all()`
+    whose path on this side lies strictly beneath the previous path and which is not itself being moved (the `_kids_moving`
+    stack, `moving`) gets `sub[s].path = join(path, relative)` — recursively this very function, so a kid is re-prioritised
+    from its new path and a kid folder carries its own kids — (on a path-id provider its id is first re-read: `oip`), then its
+    synced path is moved likewise; finally `prioritize(s, path)` is consulted for the entry itself and written when different.
+    `fuel` bounds the nesting depth (number of entries + 1 suffices: every level pushes a distinct entry). -/
+def changePath (cls : Cls) (oip : Bool × Bool) : Nat → List Nat → St → Nat → Bool → String → St
+  | 0, _, st, _, _, _ => { st with unmodelled := true }
+  | fuel + 1, moving, st, id, s, path =>
+    match st.get? id with
+    | none => st
+    | some e =>
+      if (e.side s).path == some path then st
+      else
+        let st1 := st.withE id (fun e => (e.setSide s { e.side s with path := some path }, []))
+        if path == "" then st1
+        else
+          let st2 :=
+            match (e.side s).path with
+            | some pp =>
+              if (e.side s).dir then
+                (st1.ents.filter inGetAll).foldl
+                  (kidStep (fun a i p => changePath cls oip fuel (id :: moving) a i s p) (if s then oip.2 else oip.1)
+                    (id :: moving) s pp path) st1
+              else st1
+            | none => st1
+          st2.withE id (fun e => setPriorityA st2.punt e (cls s path))
+
+/-- `SyncState.update(side, DIRECTORY, oid, path=path)`: a folder appears, or is renamed / moved.
+    `prior`: the `prior_oid` of a path-id provider's rename event (the entry known under it is reused when no entry
+    has the new id yet; state.py 1151-1176, the branch without a pre-existing entry) -/
+def dirTarget (st : St) (s : Bool) (oid : String) (prior : Option String) : Option Entry :=
+  match lookupOid st s oid, prior with
+  | some e, _ => some e
+  | none, some po => lookupOid st s po
+  | none, none => none
+
+def opUpdateDir (cls : Cls) (oip : Bool × Bool) (st : St) (s : Bool) (oid : String) (prior : Option String) (path : String)
+    (now : Rat) : St × Nat :=
+  let (st0, id) := match dirTarget st s oid prior with
+    | some e => (st, e.id)
+    | none =>
+      -- `SyncEntry(self, DIRECTORY)`: both sides start as DIRECTORY
+      ({ st with ents := st.ents ++ [({ id := st.ents.length, l := { dir := true }, r := { dir := true } } : Entry)] }, st.ents.length)
+  let st1 := st0.withE id (fun e => setOidA (e.setSide s { e.side s with dir := true }) s oid)
+  let st2 := changePath cls oip (st1.ents.length + 1) [] st1 id s path
+  let st3 := st2.withE id (fun e =>
+    let e3 := e.setSide s { e.side s with
+      ex := if (e.side s).ex == .trashed || (e.side s).ex == .likelyTrashed then .likelyTrashed else .exists }
+    if now != 0 then markA st.last now e3 s else (e3, []))
+  ({ st3 with last := if now != 0 then stamp st.last now else st.last }, id)
+
 /-! ## the fill-in loop of `change` -/
 
 /-- what the providers answer for (entry id, side) -/
@@ -362,6 +458,7 @@ inductive Op where
   | syncpath (s : Bool) (id : Nat) (p : String)
   | finished (id : Nat)
   | fill (orc : Oracle) (now : Rat)
+  | updateDir (cls : Cls) (oip : Bool × Bool) (s : Bool) (oid : String) (prior : Option String) (path : String) (now : Rat)
 
 def applyOp (dn : String → String) (st : St) : Op → St
   | .update s oid path prio now => (opUpdate st s oid path prio now).1
@@ -374,6 +471,7 @@ def applyOp (dn : String → String) (st : St) : Op → St
   | .syncpath s id p => opSyncPath st s id p
   | .finished id => opFinished dn st id
   | .fill orc now => fillIn orc now st
+  | .updateDir cls oip s oid prior path now => (opUpdateDir cls oip st s oid prior path now).1
 
 def runOps (dn : String → String) (st : St) (ops : List Op) : St := ops.foldl (applyOp dn) st
 
